@@ -21,31 +21,416 @@ def used(eng, name):
     eng.assumptions.add("numpy-model:" + name)
 
 
-# ------------------------------------------------------------------ np.unique
+# ------------------------------------------------------------------ counting: np.unique / bincount / add.at / Counter / setdiff1d / isin / max
+# Two spellings of every model fact, chosen by what is known about the LENGTHS involved without asking the solver:
+#   * a length that is a z3 term without a known bound: the fact is a quantified axiom over ghost (Skolem) functions -- good for PROOFS at
+#     symbolic size;
+#   * a length that is a Python int, or a term with a recorded concrete upper bound (`bound`): the fact is written out position by position
+#     (quantifier-free) -- on the fixed-size registrations a violated clause is then answered with a counter-model (`sat`).
+# Both spellings state the same facts (cross-checked on the real library by tools/xcheck_C18.py, blocks `unique` ... `max`).
+def bound(eng, a):
+    """a concrete upper bound of len(a) known syntactically (concrete length, result of a model below, a slice of such), else None"""
+    if isinstance(a.n, int) and not isinstance(a.n, bool):
+        return a.n
+    u = getattr(a, "ub", None)
+    if u is not None:
+        return u
+    v = getattr(a, "view_of", None)
+    if v is not None and isinstance(v[0], SArr):
+        return bound(eng, v[0])
+    hit = eng.ghost.get(("ub18", z3.simplify(a.nz()).get_id()))
+    return hit[0] if hit is not None else None
+
+
+def set_bound(eng, a, ub):
+    a.ub = ub
+    eng.ghost[("ub18", z3.simplify(a.nz()).get_id())] = (ub, a.nz())  # arrays derived elementwise share the length TERM
+    return a
+
+
+def FA(hi, ub, body, lo=0, patterns=None):
+    """forall lo <= k < hi: body(k)"""
+    if ub is None:
+        k = z3.Int(fresh_name("k18"))
+        kw = dict(patterns=patterns(k)) if patterns is not None else {}
+        return z3.ForAll([k], z3.Implies(z3.And(k >= lo, k < hi), body(k)), **kw)
+    return z3.And(*[z3.Implies(z3.IntVal(q) < hi, body(z3.IntVal(q))) for q in range(lo, ub)]) if ub > lo else z3.BoolVal(True)
+
+
+def EX(hi, ub, body, lo=0):
+    """exists lo <= k < hi: body(k)"""
+    if ub is None:
+        k = z3.Int(fresh_name("k18"))
+        return z3.Exists([k], z3.And(k >= lo, k < hi, body(k)))
+    return z3.Or(*[z3.And(z3.IntVal(q) < hi, body(z3.IntVal(q))) for q in range(lo, ub)]) if ub > lo else z3.BoolVal(False)
+
+
+def SUM(hi, ub, term):
+    """sum over 0 <= k < hi of term(k) (ub known)"""
+    return z3.Sum(*[z3.If(z3.IntVal(q) < hi, term(z3.IntVal(q)), 0) for q in range(ub)]) if ub else z3.IntVal(0)
+
+
+def occ_fn(arr):
+    """the counting function of a z3 array term A:  occ(v, i) = number of positions j with 0 <= j < i and A[j] == v.
+    One symbol per array TERM (the name is derived from the term), so every model -- and a contract's ghost counter -- that counts
+    in the same array speaks about the same function."""
+    import hashlib
+
+    return z3.Function("occ_" + hashlib.sha1(arr.sexpr().encode()).hexdigest()[:12], I, I, I)
+
+
+def occ_axioms(eng, arr):
+    """facts about occ_fn(arr) (all true of the counting function; xcheck block `occ`): the defining recursion, 0 <= occ(v, i) <= i,
+    a positive count has a witness position, a position holding v makes the count positive"""
+    key = ("occ18", arr.get_id())
+    if key in eng.ghost:
+        return eng.ghost[key][0]
+    occ = occ_fn(arr)
+    tag = fresh_name("oc")
+    ow = z3.Function("ow_" + tag, I, I, I)
+    v, i, j = z3.Ints(f"v_{tag} i_{tag} j_{tag}")
+    A = lambda t: z3.Select(arr, t)
+    eng.assume(z3.ForAll([v], occ(v, 0) == 0))
+    eng.assume(z3.ForAll([v, i], z3.Implies(i >= 0, occ(v, i + 1) == occ(v, i) + z3.If(A(i) == v, 1, 0)), patterns=[occ(v, i + 1)]))
+    eng.assume(z3.ForAll([v, i], z3.Implies(i >= 0, z3.And(occ(v, i) >= 0, occ(v, i) <= i)), patterns=[occ(v, i)]))
+    eng.assume(z3.ForAll([v, i], z3.Implies(z3.And(i >= 0, occ(v, i) > 0), z3.And(ow(v, i) >= 0, ow(v, i) < i, A(ow(v, i)) == v)), patterns=[occ(v, i)]))
+    eng.assume(z3.ForAll([i, j], z3.Implies(z3.And(0 <= j, j < i), occ(A(j), i) >= 1), patterns=[z3.MultiPattern(occ(A(j), i))]))
+    eng.ghost[key] = (occ, arr)
+    used(eng, "counting function occ(v, i) = number of positions j < i holding v: recursion over i, 0 <= occ <= i, occ > 0 iff some position j < i holds v")
+    return occ
+
+
+def count_of(eng, a, v):
+    """number of positions of the 1-D array a that hold v (z3 Int term)"""
+    ub = bound(eng, a)
+    if ub is not None:
+        return SUM(a.nz(), ub, lambda q: z3.If(a.get(q).z == v, 1, 0))
+    return occ_axioms(eng, a.arr)(v, a.nz())
+
+
+def _as_int_sarr(eng, x, what):
+    """1-D int array operand as an SArr (SArr itself, 1-D NArr, concrete list of ints / symbolic ints)"""
+    from .values import NArr, PList
+
+    if isinstance(x, SArr) and x.kind in ("int", "bool") and not hasattr(x, "__pyvc_getitem__"):
+        return x
+    if isinstance(x, SArr) and x.kind in ("int", "bool"):
+        return SArr(x.arr, x.n, x.kind, name=x.name, dtype=x.dtype)
+    items = None
+    if isinstance(x, NArr) and x.ndim == 1 and x.kind in ("int", "bool"):
+        items = list(x.items)
+    elif isinstance(x, PList) and x.items is not None and all(kind_of(t) == "int" for t in x.items):
+        items = list(x.items)
+    elif isinstance(x, PList) and x.items is None and not x.tup and x.kinds == ["int"]:
+        return SArr(x.cols[0], x.n, "int", name="lst")
+    if items is None:
+        raise Unsupported(f"{what}: operand is not a 1-D int array")
+    arr = z3.K(I, z3.IntVal(0))
+    for q, t in enumerate(items):
+        arr = z3.Store(arr, q, to_z3(t, "int"))
+    return SArr(arr, len(items), "int", name="lst")
+
+
 def np_unique(eng, args, kwargs):
-    """np.unique(a) of a 1-D int array of symbolic length: the sorted distinct values.
-    out (length m) is strictly increasing, every out[k] is a value of a (ghost witness wit(k)), every a[i] occurs
-    in out (ghost position pos(i))."""
-    if len(args) != 1 or kwargs or not isinstance(args[0], SArr) or args[0].kind != "int":
-        raise Unsupported("np.unique form (modelled: np.unique(1-D int array))")
-    a = args[0]
-    used(eng, "np.unique(1-D int array): strictly increasing array of exactly the values that occur")
+    """np.unique(a, return_index=, return_inverse=, return_counts=) of a 1-D int array: `out` = the distinct values in ascending order;
+    index[k] = FIRST position holding out[k]; inverse[i] = the position of a[i] in out; counts[k] = number of positions holding out[k]."""
+    kw = dict(kwargs)
+    flags = [bool(kw.pop(nm, False)) if not isinstance(kw.get(nm, False), Sym) else None for nm in ("return_index", "return_inverse", "return_counts")]
+    if kw.pop("axis", None) is not None or kw or len(args) != 1 or None in flags:
+        raise Unsupported("np.unique form (modelled: np.unique(1-D int array, return_index=, return_inverse=, return_counts=))")
+    want_index, want_inverse, want_counts = flags
+    try:
+        a = _as_int_sarr(eng, args[0], "np.unique")
+    except Unsupported:
+        raise Unsupported("np.unique form (modelled: np.unique(1-D int array, return_index=, return_inverse=, return_counts=))")
+    used(eng, "np.unique(1-D int array): strictly increasing array of exactly the values that occur"
+         + ("; return_index: the first position of each value" if want_index else "") + ("; return_inverse: a == out[inverse]" if want_inverse else "")
+         + ("; return_counts: the number of positions holding each value" if want_counts else ""))
+    ub = bound(eng, a)
     out = SArr.fresh("int", name="uniq")
     tag = fresh_name("uq")
     wit, pos = z3.Function("wit_" + tag, I, I), z3.Function("pos_" + tag, I, I)
-    k, k2, i = z3.Ints(f"k_{tag} k2_{tag} i_{tag}")
     n, m = a.nz(), out.nz()
+    A, O = (lambda t: a.get(t).z), (lambda t: out.get(t).z)
     eng.assume(z3.And(m >= 0, m <= n))
-    eng.assume(z3.ForAll([k], z3.Implies(z3.And(k >= 0, k < m), z3.And(wit(k) >= 0, wit(k) < n, out.get(k).z == a.get(wit(k)).z))))
-    eng.assume(z3.ForAll([k, k2], z3.Implies(z3.And(k >= 0, k < k2, k2 < m), out.get(k).z < out.get(k2).z)))
-    eng.assume(z3.ForAll([i], z3.Implies(z3.And(i >= 0, i < n), z3.And(pos(i) >= 0, pos(i) < m, out.get(pos(i)).z == a.get(i).z))))
-    # ground INSTANCES of the three axioms above at the first positions (nothing new is assumed: they only give the
-    # solver's E-matching the terms out[0], out[1], a[0] to start from -- `len(np.unique(a)) == 1` is decided by them)
-    for kk in (0, 1):
-        eng.assume(z3.Implies(kk < m, z3.And(wit(kk) >= 0, wit(kk) < n, out.get(kk).z == a.get(wit(kk)).z)))
-    eng.assume(z3.Implies(1 < m, out.get(0).z < out.get(1).z))
-    eng.assume(z3.Implies(0 < n, z3.And(pos(0) >= 0, pos(0) < m, out.get(pos(0)).z == a.get(0).z)))
+    if ub is not None:
+        set_bound(eng, out, ub)
+        eng.assume((m == 0) == (n == 0))  # follows from wit / pos; stated for the written-out form
+    eng.assume(FA(m, ub, lambda k: z3.And(wit(k) >= 0, wit(k) < n, O(k) == A(wit(k)))))
+    if ub is None:
+        k, k2 = z3.Ints(f"k_{tag} k2_{tag}")
+        eng.assume(z3.ForAll([k, k2], z3.Implies(z3.And(k >= 0, k < k2, k2 < m), O(k) < O(k2))))
+    else:
+        eng.assume(FA(m - 1, max(ub - 1, 0), lambda k: O(k) < O(k + 1)))
+        eng.assume(FA(m, ub, lambda k: EX(n, ub, lambda q: z3.And(wit(k) == q))))  # wit(k) is one of the positions
+    eng.assume(FA(n, ub, lambda i: z3.And(pos(i) >= 0, pos(i) < m, O(pos(i)) == A(i))))
+    if ub is None:
+        # ground INSTANCES of the axioms at the first positions (nothing new: they give E-matching the terms out[0], out[1], a[0])
+        for kk in (0, 1):
+            eng.assume(z3.Implies(kk < m, z3.And(wit(kk) >= 0, wit(kk) < n, O(kk) == A(wit(kk)))))
+        eng.assume(z3.Implies(1 < m, O(0) < O(1)))
+        eng.assume(z3.Implies(0 < n, z3.And(pos(0) >= 0, pos(0) < m, O(pos(0)) == A(0))))
+    else:
+        eng.assume(FA(n, ub, lambda i: EX(m, ub, lambda q: pos(i) == q)))
+    res = [out]
+    if want_index:
+        idx = SArr.fresh("int", out.n, name="uniq_index")
+        eng.assume(FA(m, ub, lambda k: z3.And(idx.get(k).z == wit(k), FA(wit(k), ub, lambda j: A(j) != O(k)))))
+        res.append(idx)
+    if want_inverse:
+        inv = SArr.fresh("int", a.n, name="uniq_inverse")
+        eng.assume(FA(n, ub, lambda i: inv.get(i).z == pos(i), patterns=(lambda i: [inv.get(i).z]) if ub is None else None))
+        res.append(inv)
+    if want_counts:
+        cnt = SArr.fresh("int", out.n, name="uniq_counts")
+        eng.assume(FA(m, ub, lambda k: z3.And(cnt.get(k).z == count_of(eng, a, O(k)), cnt.get(k).z >= 1), patterns=(lambda k: [cnt.get(k).z]) if ub is None else None))
+        res.append(cnt)
+    return out if len(res) == 1 else tuple(res)
+
+
+_STOCK_FILTER = npmodels.mask_filter
+
+
+def mask_filter(eng, base, mask):
+    """a[mask] when a bound of the length is known: the stock facts (order kept, kappa / rho) written out position by position"""
+    ub = bound(eng, base)
+    if ub is None or eng.spec_mode:
+        return _STOCK_FILTER(eng, base, mask)
+    npmodels.used(eng, "boolean-mask-filter-keeps-order")
+    npmodels._len_eq(eng, base, mask, "boolean index")
+    tag = fresh_name("m")
+    n = base.nz()
+    M = lambda q: z3.And(z3.IntVal(q) < n, mask.get(q).z)
+    ck = ("filter18", mask.arr.get_id(), z3.simplify(mask.nz()).get_id())
+    cached = eng.ghost.get(ck)
+    if cached is None:
+        kappa, rho = z3.Function("kappa_" + tag, I, I), z3.Function("rho_" + tag, I, I)
+        mlen = z3.Const(fresh_name("flt_len"), I)
+        eng.assume(mlen == (z3.Sum(*[z3.If(M(q), 1, 0) for q in range(ub)]) if ub else z3.IntVal(0)))
+        for q in range(ub):
+            rank = z3.Sum(*[z3.If(M(j), 1, 0) for j in range(q)]) if q else z3.IntVal(0)
+            eng.assume(z3.Implies(M(q), z3.And(rho(q) == rank, kappa(rank) == q)))
+        cached = eng.ghost[ck] = (kappa, rho, mlen, mask.arr)
+    kappa, rho, mlen = cached[:3]
+    out = SArr.fresh(base.kind, mlen, name="flt")
+    for q in range(ub):
+        eng.assume(z3.Implies(M(q), out.get(rho(q)).z == base.get(q).z))
+    out.kappa, out.rho, out.src, out.mask = kappa, rho, base, mask
+    set_bound(eng, out, ub)
+    eng.last_filter = out
     return out
+
+
+def _membership(eng, b):
+    """v -> `v is an entry of the 1-D int array b`"""
+    ub = bound(eng, b)
+    return lambda v: EX(b.nz(), ub, lambda q: b.get(q).z == v)
+
+
+def np_setdiff1d(eng, args, kwargs):
+    """np.setdiff1d(a, b): the sorted distinct values of a that are not in b"""
+    if len(args) != 2 or any(k_ != "assume_unique" for k_ in kwargs):
+        raise Unsupported("np.setdiff1d form")
+    a, b = _as_int_sarr(eng, args[0], "np.setdiff1d"), _as_int_sarr(eng, args[1], "np.setdiff1d")
+    used(eng, "np.setdiff1d(a, b) on 1-D int arrays: strictly increasing array of exactly the values of a that do not occur in b")
+    ua, ubb = bound(eng, a), bound(eng, b)
+    ub = ua if ubb is not None else None
+    in_b = _membership(eng, b) if ub is not None else (lambda v: EX(b.nz(), None, lambda q: b.get(q).z == v))
+    out = SArr.fresh("int", name="setdiff")
+    tag = fresh_name("sd")
+    wit, pos = z3.Function("wit_" + tag, I, I), z3.Function("pos_" + tag, I, I)
+    n, m = a.nz(), out.nz()
+    O = lambda t: out.get(t).z
+    eng.assume(z3.And(m >= 0, m <= n))
+    if ub is not None:
+        set_bound(eng, out, ub)
+        eng.assume(FA(m, ub, lambda k: z3.And(EX(n, ub, lambda q: z3.And(wit(k) == q, O(k) == a.get(q).z)), z3.Not(in_b(O(k))))))
+        eng.assume(FA(m - 1, max(ub - 1, 0), lambda k: O(k) < O(k + 1)))
+        eng.assume(FA(n, ub, lambda i: z3.Or(in_b(a.get(i).z), EX(m, ub, lambda q: z3.And(pos(i) == q, O(q) == a.get(i).z)))))
+    else:
+        k, k2, i, j = z3.Ints(f"k_{tag} k2_{tag} i_{tag} j_{tag}")
+        eng.assume(z3.ForAll([k], z3.Implies(z3.And(k >= 0, k < m), z3.And(wit(k) >= 0, wit(k) < n, O(k) == a.get(wit(k)).z))))
+        eng.assume(z3.ForAll([k, j], z3.Implies(z3.And(k >= 0, k < m, j >= 0, j < b.nz()), O(k) != b.get(j).z)))
+        eng.assume(z3.ForAll([k, k2], z3.Implies(z3.And(k >= 0, k < k2, k2 < m), O(k) < O(k2))))
+        inb = z3.Function("inb_" + tag, I, I)
+        eng.assume(z3.ForAll([i], z3.Implies(z3.And(i >= 0, i < n), z3.Or(z3.And(inb(i) >= 0, inb(i) < b.nz(), b.get(inb(i)).z == a.get(i).z),
+                                                                        z3.And(pos(i) >= 0, pos(i) < m, O(pos(i)) == a.get(i).z)))))
+        eng.assume(z3.Implies(0 < m, z3.And(wit(0) >= 0, wit(0) < n, O(0) == a.get(wit(0)).z)))
+    return out
+
+
+def np_isin(eng, args, kwargs):
+    """np.isin(a, b) / np.in1d(a, b) on 1-D int arrays: out[i] = (a[i] occurs in b); invert=True negates"""
+    kw = dict(kwargs)
+    invert = kw.pop("invert", False)
+    kw.pop("assume_unique", None)
+    if len(args) != 2 or kw or isinstance(invert, Sym):
+        raise Unsupported("np.isin form")
+    a, b = _as_int_sarr(eng, args[0], "np.isin"), _as_int_sarr(eng, args[1], "np.isin")
+    used(eng, "np.isin(a, b) on 1-D int arrays: elementwise membership of a[i] in b")
+    in_b = _membership(eng, b)
+    i = z3.Int(fresh_name("isin"))
+    body = in_b(a.get(i).z)
+    return SArr(z3.Lambda([i], z3.Not(body) if invert else body), a.n, "bool", name="isin")
+
+
+def np_bincount(eng, args, kwargs):
+    """np.bincount(x, minlength=k) of a 1-D array of NON-NEGATIVE ints: length max(k, max(x) + 1), out[v] = number of positions holding v"""
+    kw = dict(kwargs)
+    minlength = kw.pop("minlength", 0)
+    if kw.pop("weights", None) is not None or kw or not 1 <= len(args) <= 3 or (len(args) > 1 and args[1] is not None):
+        raise Unsupported("np.bincount form (modelled: np.bincount(1-D int array, minlength=k))")
+    if len(args) == 3:
+        minlength = args[2]
+    x = _as_int_sarr(eng, args[0], "np.bincount")
+    ub = bound(eng, x)
+    n = x.nz()
+    mz = to_z3(minlength, "int")
+    if not eng.spec_mode:
+        if not eng.branch(eng.sbool(FA(n, ub, lambda q: x.get(q).z >= 0))):
+            raise ProgExc(ValueError, "'list' argument must have no negative elements")
+        if not eng.branch(eng.sbool(mz >= 0)):
+            raise ProgExc(ValueError, "'minlength' must not be negative")
+    used(eng, "np.bincount(x, minlength=k), x non-negative ints: an array of length max(k, max(x) + 1) whose entry v is the number of positions of x holding v")
+    out = SArr.fresh("int", name="bincount")
+    L = out.nz()
+    eng.assume(z3.And(L >= mz, L >= 0, FA(n, ub, lambda q: x.get(q).z < L), z3.Or(L == mz, EX(n, ub, lambda q: x.get(q).z + 1 == L))))
+    v = z3.Int(fresh_name("bv"))
+    eng.assume(z3.ForAll([v], z3.Implies(z3.And(v >= 0, v < L), out.get(v).z == filtered_count(eng, x, v)), patterns=[out.get(v).z]))
+    return out
+
+
+def filtered_count(eng, x, v):
+    """number of positions of x holding v; when x = src[mask] (boolean selection) the count is taken in src: the number of positions i with
+    mask[i] and src[i] == v (what the selection keeps), written out when a bound of len(src) is known"""
+    src, mask = getattr(x, "src", None), getattr(x, "mask", None)
+    if isinstance(src, SArr) and isinstance(mask, SArr):
+        ub = bound(eng, src)
+        if ub is not None:
+            return SUM(src.nz(), ub, lambda q: z3.If(z3.And(mask.get(q).z, src.get(q).z == v), 1, 0))
+        # symbolic length: the count in the selection equals the count in src for a value all of whose occurrences are selected, 0 for a
+        # value none of whose occurrences is selected (the filter-count facts; xcheck block `filter-count`)
+        occ_x, occ_s = occ_axioms(eng, x.arr), occ_axioms(eng, src.arr)
+        key = ("fc18", x.arr.get_id())
+        if key not in eng.ghost:
+            eng.ghost[key] = True
+            t, w = z3.Int(fresh_name("fcv")), z3.Function(fresh_name("fcw"), I, I)
+            ns, nx = src.nz(), x.nz()
+            hold = lambda val, pol: z3.Implies(z3.And(w(val) >= 0, w(val) < ns, src.get(w(val)).z == val), mask.get(w(val)).z if pol else z3.Not(mask.get(w(val)).z))
+            # w(t) = a position that refutes "every (no) occurrence of t is selected", if there is one: with it the premises are quantifier-free
+            eng.assume(z3.ForAll([t], z3.Or(occ_x(t, nx) == occ_s(t, ns), z3.And(w(t) >= 0, w(t) < ns, src.get(w(t)).z == t, z3.Not(mask.get(w(t)).z))), patterns=[occ_x(t, nx)]))
+            used(eng, "a[mask] keeps, for a value all of whose occurrences are selected, its number of occurrences (else some occurrence is not selected)")
+        return occ_x(v, x.nz())
+    return count_of(eng, x, v)
+
+
+def ufunc_add_at(eng, args, kwargs):
+    """np.add.at(a, idx, c): a[v] += c for every position of idx holding v (unbuffered: repeated indices accumulate)"""
+    from .models import check_frame
+
+    from .values import NArr
+
+    if len(args) == 3 and not kwargs and isinstance(args[0], NArr) and args[0].ndim == 1 and args[0].kind == "int" and kind_of(args[2]) == "int":
+        # a target of concrete length: cell q grows by c times the number of positions of idx holding q
+        a, c = args[0], to_z3(args[2], "int")
+        idx = _as_int_sarr(eng, args[1], "np.add.at")
+        ub, L = bound(eng, idx), len(a.items)
+        check_frame(eng, a)
+        if not eng.spec_mode:
+            if not eng.branch(eng.sbool(FA(idx.nz(), ub, lambda q: z3.And(idx.get(q).z >= -L, idx.get(q).z < L)))):
+                raise ProgExc(IndexError, "index out of bounds in np.add.at")
+            eng.prove(eng.site("add-at-non-negative-indices"), FA(idx.nz(), ub, lambda q: idx.get(q).z >= 0), "safety", "np.add.at with negative (wrapping) indices is not modelled")
+        used(eng, "np.add.at(a, idx, c): a[v] grows by c times the number of positions of idx holding v")
+        a.items = [eng.snum(z3.simplify(to_z3(x, "int") + c * filtered_count(eng, idx, z3.IntVal(q))), "int") for q, x in enumerate(a.items)]
+        return None
+    if len(args) != 3 or kwargs or not isinstance(args[0], SArr) or args[0].kind != "int" or kind_of(args[2]) != "int" or getattr(args[0], "view_of", None) is not None:
+        raise Unsupported("np.add.at form (modelled: np.add.at(1-D int array, 1-D int index array, int))")
+    a, c = args[0], to_z3(args[2], "int")
+    idx = _as_int_sarr(eng, args[1], "np.add.at")
+    ub = bound(eng, idx)
+    check_frame(eng, a)
+    if not eng.spec_mode:
+        if not eng.branch(eng.sbool(FA(idx.nz(), ub, lambda q: z3.And(idx.get(q).z >= -a.nz(), idx.get(q).z < a.nz())))):
+            raise ProgExc(IndexError, "index out of bounds in np.add.at")
+        eng.prove(eng.site("add-at-non-negative-indices"), FA(idx.nz(), ub, lambda q: idx.get(q).z >= 0), "safety", "np.add.at with negative (wrapping) indices is not modelled")
+    used(eng, "np.add.at(a, idx, c): a[v] grows by c times the number of positions of idx holding v")
+    old = a.arr
+    v = z3.Int(fresh_name("av"))
+    a.arr = z3.Lambda([v], z3.Select(old, v) + c * filtered_count(eng, idx, v))
+    return None
+
+
+def _arr_max(eng, a, initial, what):
+    """maximum of a 1-D numeric array (with `initial`: of the entries and that value); ValueError on an empty array without initial"""
+    ub = bound(eng, a)
+    n = a.nz()
+    if initial is None and not eng.spec_mode:
+        if not eng.branch(eng.sbool(n > 0)):
+            raise ProgExc(ValueError, "zero-size array to reduction operation maximum which has no identity")
+    used(eng, f"{what}: an upper bound of every entry (and of `initial`) that is one of them")
+    kind = a.kind if initial is None or kind_of(initial) == a.kind else "real"
+    r = fresh(kind, "amax")
+    E_ = lambda q: to_z3(a.get(q), kind)
+    parts = [FA(n, ub, lambda q: r.z >= E_(q))]
+    attained = EX(n, ub, lambda q: r.z == E_(q))
+    if initial is not None:
+        iz = to_z3(initial, kind)
+        parts.append(r.z >= iz)
+        attained = z3.Or(r.z == iz, attained)
+    eng.assume(z3.And(attained, *parts))
+    return r
+
+
+def np_max(eng, args, kwargs):
+    kw = dict(kwargs)
+    initial = kw.pop("initial", None)
+    if len(args) == 1 and not kw and isinstance(args[0], SArr) and args[0].kind in ("int", "real") and not hasattr(args[0], "__pyvc_getitem__"):
+        return _arr_max(eng, args[0], initial, "np.max(1-D array, initial=)")
+    from .values import NArr
+
+    if len(args) == 1 and not kw and initial is not None and isinstance(args[0], NArr) and args[0].ndim == 1 and args[0].kind == "int":
+        return _arr_max(eng, _as_int_sarr(eng, args[0], "np.max"), initial, "np.max(1-D array, initial=)")
+    prev = _PREV.get(np.max)
+    if prev is None or initial is not None:
+        raise Unsupported("np.max form")
+    return prev(eng, args, kwargs)
+
+
+def _a_max(eng, recv, args, kwargs):
+    kw = dict(kwargs)
+    initial = kw.pop("initial", None)
+    if args or kw or recv.kind not in ("int", "real"):
+        raise Unsupported("ndarray.max form")
+    return _arr_max(eng, recv, initial, "ndarray.max(initial=)")
+
+
+def _a_sum(eng, recv, args, kwargs):
+    ub = bound(eng, recv)
+    if args or kwargs or ub is None or recv.kind not in ("int", "bool"):
+        raise Unsupported("ndarray.sum of an array of unbounded symbolic length")
+    return eng.snum(SUM(recv.nz(), ub, lambda q: to_z3(recv.get(q), "int")), "int")
+
+
+def _bounded_any_all(is_all, stock):
+    def method(eng, recv, args, kwargs):
+        ub = bound(eng, recv) if isinstance(recv, SArr) else None
+        if ub is None or args or kwargs or recv.kind != "bool":
+            return stock(eng, recv, args, kwargs)
+        return eng.sbool((FA if is_all else EX)(recv.nz(), ub, lambda q: recv.get(q).z))
+
+    return method
+
+
+def _bounded_np_any_all(is_all, stock):
+    def model(eng, args, kwargs):
+        a = args[0] if args else None
+        ub = bound(eng, a) if isinstance(a, SArr) else None
+        if ub is None or len(args) != 1 or kwargs:
+            return stock(eng, args, kwargs)
+        t = (lambda x: x.z) if a.kind == "bool" else (lambda x: x.z != 0)
+        return eng.sbool((FA if is_all else EX)(a.nz(), ub, lambda q: t(a.get(q))))
+
+    return model
 
 
 # ------------------------------------------------------------------ pandas: the frame idioms of link_roots_to_nearest_
@@ -286,7 +671,30 @@ def install():
     from . import narr
 
     _PREV[np.linalg.norm] = models.EXTRA_MODELS.get(np.linalg.norm) or narr.NP_MODELS.get(np.linalg.norm)
+    _PREV[np.max] = models.EXTRA_MODELS.get(np.max) or narr.NP_MODELS.get(np.max)
     models.EXTRA_MODELS[np.unique] = np_unique
     models.EXTRA_MODELS[next] = b_next
     models.EXTRA_MODELS[np.linalg.norm] = np_norm
     models.EXTRA_MODELS[np.where] = np_where
+    models.EXTRA_MODELS[np.setdiff1d] = np_setdiff1d
+    models.EXTRA_MODELS[np.isin] = np_isin
+    if hasattr(np, "in1d"):
+        models.EXTRA_MODELS[np.in1d] = np_isin
+    models.EXTRA_MODELS[np.bincount] = np_bincount
+    models.EXTRA_MODELS[np.add.at] = ufunc_add_at
+    models.EXTRA_MODELS[np.max] = np_max
+    models.EXTRA_MODELS[np.amax] = np_max
+    try:  # np.zeros / np.full with a symbolic 1-D length (additive: concrete shapes go to the stock models)
+        from . import ext_C01
+
+        ext_C01.install()
+    except Exception:  # noqa: BLE001 - without it np.zeros(n) of a symbolic n stays unsupported
+        pass
+    if npmodels.mask_filter is not mask_filter:
+        npmodels.mask_filter = mask_filter  # a[mask] on an array whose length has a known bound: the same facts, written out
+        npmodels.ARR_METHODS["any"] = _bounded_any_all(False, npmodels.ARR_METHODS["any"])
+        npmodels.ARR_METHODS["all"] = _bounded_any_all(True, npmodels.ARR_METHODS["all"])
+        npmodels.ARR_METHODS.setdefault("max", _a_max)
+        npmodels.ARR_METHODS.setdefault("sum", _a_sum)
+        models.EXTRA_MODELS[np.any] = _bounded_np_any_all(False, npmodels.NP_MODELS[np.any])
+        models.EXTRA_MODELS[np.all] = _bounded_np_any_all(True, npmodels.NP_MODELS[np.all])
